@@ -501,6 +501,10 @@ def compare(interp, st, op, l, r, node=None):
         a = l if I.is_obj(l) else V._coerce_objs(r, l)
         b = r if I.is_obj(r) else V._coerce_objs(l, r)
         if a is None or b is None or not (I.is_obj(a) and I.is_obj(b)):
+            if is_scalar(l) and is_scalar(r):
+                # an opaque object against a symbolic number / string: nothing is known about the outcome
+                u = z3.Bool(V.fresh_name("obj_eq_unknown"))
+                return u if t is ast.Eq else z3.Not(u)
             raise Outside("comparison of an opaque object with a value containing symbolic parts", node)
         return (a == b) if t is ast.Eq else (a != b)
     # None comparisons
@@ -604,6 +608,13 @@ def contains(interp, st, container, item, node=None):
     if isinstance(container, CSet):
         key = as_key(item, node)
         return container.contains(key)
+    if type(container).__name__ == "RecDictView":
+        # `name in obj.__dict__`: a declared field is there; anything else may or may not have been stored by an earlier call (unknown)
+        if isinstance(item, str):
+            if item in container.rec.fields:
+                return True
+            return z3.Bool(V.fresh_name(f"has_attr_{item}"))
+        raise Outside("`in obj.__dict__` with a non-constant name", node)
     if isinstance(container, V.SDict):
         key = item if is_sym(item) else z3.StringVal(item)
         return container.has(key)
